@@ -76,7 +76,7 @@ pub fn replay(input: &str, output: &str) {
             Outcome::Ok(f) => {
                 let (dp, dr) = lattice::iso_max_diff(f, &m);
                 // near-collinear triples amplify rounding in the normal direction: scale the tolerance by the conditioning
-                let tol = if tri == 4 { 1e-6 } else { 1e-9 };
+                let tol = if (tri == 4 || tri == 8) { 1e-6 } else { 1e-9 };
                 if !(dp <= tol * (1.0 + oracle::norm(&m.t)) * 10.0 && dr <= tol) {
                     out.put(json!({"sig": "frame3:frame-differs-from-generating-motion", "detail": format!("off by {:.3e} m / {:.3e}; {}", dp, dr, desc), "data": desc}));
                 }
@@ -86,7 +86,7 @@ pub fn replay(input: &str, output: &str) {
                 for i in 0..3 {
                     let img = f.apply(&p[i]);
                     let d = oracle::norm(&oracle::sub(&img, &q[i]));
-                    if !(d <= 1e-9 * (1.0 + oracle::norm(&q[i])) * 10.0 + if tri == 4 { 1e-7 } else { 0.0 }) {
+                    if !(d <= 1e-9 * (1.0 + oracle::norm(&q[i])) * 10.0 + if (tri == 4 || tri == 8) { 1e-7 } else { 0.0 }) {
                         out.put(json!({"sig": "frame3:point-not-mapped-to-image", "detail": format!("point {} lands {:.3e} m from its image; {}", i + 1, d, desc), "data": desc}));
                     }
                 }
@@ -134,7 +134,7 @@ pub fn replay(input: &str, output: &str) {
             match &o6 {
                 Outcome::Ok(f) => {
                     let w = (0..3).map(|i| oracle::norm(&oracle::sub(&f.apply(&ps[i]), &qs2[i]))).fold(0.0, f64::max);
-                    let tol = if tri == 4 { 1e-6 } else { 1e-8 } * (1.0 + oracle::norm(&ps[0]));
+                    let tol = if (tri == 4 || tri == 8) { 1e-6 } else { 1e-8 } * (1.0 + oracle::norm(&ps[0]));
                     if f.improper() > 1e-9 || !(w <= tol) {
                         out.put(json!({"sig": "frame3:small-motion-points-not-mapped-to-images", "detail": format!("rotation {:.3e} rad, shift {:.3e} m: worst point {:.3e} m off; {}", ang, sh, w, desc), "data": desc}));
                     }
